@@ -50,6 +50,7 @@ static void stream_event(int stream, u8_t *block) {
   if (bi >= 0 && vs_active()) {
     if (COARSE == 0) vs_point(100, bi);
     vs_access(2 * bi + 1, 1, 100 + stream);
+    vs_access(32 + stream, 1, 200 + stream); // the stream object itself: two threads may use it only if ordered by happens-before
     if (g_io_busy[bi]) note_overlap("worker-block-during-io", bi);
   }
   long g = (bi >= 0 && g_chunk_of_buf[bi] >= 0) ? (long)g_chunk_of_buf[bi] * NB + slot : -1;
@@ -172,20 +173,21 @@ static void scenario_pipe(std::string &obs) {
   // per-stream log
   std::string mlog = "ok";
   size_t body = ENC ? pad(IN).size() : IN.size();
-  for (int j = 0; j < Tn && mlog == "ok"; j++) {
+  bool attributable = true; // blocks handed to the streams lie inside the chunk buffers (else: a refactoring copies them; only M-out applies)
+  for (int j = 0; j < Tn; j++) for (auto &l : g_log[j]) if (l.buf < 0) attributable = false;
+  for (int j = 0; j < Tn && mlog == "ok" && attributable; j++) {
     std::vector<long> e = expected_blocks(j, body);
     if (g_log[j].size() != e.size()) { mlog = "BAD(stream" + std::to_string(j) + ":count " + std::to_string(g_log[j].size()) + "!=" + std::to_string(e.size()) + ")"; break; }
     for (size_t k = 0; k < e.size(); k++) {
       const LogEnt &l = g_log[j][k];
       if (l.buf != j) { mlog = "BAD(stream" + std::to_string(j) + ":foreign-buffer " + std::to_string(l.buf) + ")"; break; }
       if (l.gblock != e[k]) { mlog = "BAD(stream" + std::to_string(j) + ":block#" + std::to_string(k) + " is " + std::to_string(l.gblock) + " exp " + std::to_string(e[k]) + ")"; break; }
-      if (l.tid != g_log[j][0].tid) { mlog = "BAD(stream" + std::to_string(j) + ":two-threads)"; break; }
     }
   }
   std::string races;
   for (int i = 0; i < vs_nraces; i++) {
     const vs_race_t &r = vs_races[i];
-    races += (i ? "," : "") + std::string(r.loc % 2 ? "bytes" : "cursor") + std::to_string(r.loc / 2) + ":" + std::to_string(r.code_prev) + "/t" + std::to_string(r.t_prev) + "~" + std::to_string(r.code_now) + "/t" + std::to_string(r.t_now);
+    races += (i ? "," : "") + (r.loc >= 32 ? std::string("stream") + std::to_string(r.loc - 32) : std::string(r.loc % 2 ? "bytes" : "cursor") + std::to_string(r.loc / 2)) + ":" + std::to_string(r.code_prev) + "/t" + std::to_string(r.t_prev) + "~" + std::to_string(r.code_now) + "/t" + std::to_string(r.t_now);
   }
   std::string ov;
   for (auto &o : g_overlap) ov += (ov.empty() ? "" : ",") + o;
@@ -238,7 +240,6 @@ static std::vector<Verdict> classify_all(const vx::Exec &x) {
   if (field("mlog") != "ok") v.push_back({"C14", "chunk-assignment", "a chunk was not processed by its owner exactly once in file order: " + field("mlog")});
   if (field("races") != "none") v.push_back({"C14", "hb-race", "unordered accesses to a chunk buffer: " + field("races")});
   if (field("overlap") != "none") v.push_back({"C14", "overlap", "worker touched a buffer while the I/O thread was refilling/flushing it: " + field("overlap")});
-  if (field("threads") != std::to_string(Tn + 1)) v.push_back({"C04", "threads", "unexpected thread count " + field("threads")});
   return v;
 }
 static std::string vkeys(const std::vector<Verdict> &v) { std::string s; for (auto &e : v) s += e.prop + "/" + e.key + ";"; return s; }
